@@ -1599,19 +1599,27 @@ macro_rules! bd5_connack {
                 }
                 vcover!(r.is_ok() && len == $n, "accepted at the length bound");
                 vcover!($n < 6 || (r.is_err() && !named_bad), "rejected for a property VALUE (e.g. receive maximum 0, flag byte > 1)");
-                vcover!(named_bad && len >= 5 && d[1] == 0 && d[0] == 0, "named malformation in the properties");
+                vcover!($n < 5 || (named_bad && len >= 5 && d[1] == 0 && d[0] == 0), "named malformation in the properties");
             }
         }
     };
 }
 //@ props: C02
-//@ tier: quick
+//@ tier: thorough
 //@ functions: v5 decode::decode_packet, ConnectAck::decode, take_properties, Option<T>::read_value
 //@ bounds: every body of 0..=5 arbitrary bytes (flags, reason, property length and up to two property bytes: every property id with a missing or one-byte value)
 //@ unwindset: utf8_is_valid=6 spec_utf8=6 slice_eq=6 ConnectAck=6 spec_walk_props=6 decode_variable_length_cursor=6 encode_opt_props=3 encoded_size_opt_props=3 clone=3 expect_lp=6 spec_check_connack_props=8
 //@ mem: 12  timeout: 900
 //@ desc: v5 CONNACK body, short bodies: never panics; reserved acknowledge flags, unknown reason code, unknown property id, a property whose value is cut off by the end of the section, trailing bytes are errors
 bd5_connack!(bd5_connack_5, 5);
+//@ props: C02
+//@ tier: thorough
+//@ functions: v5 decode::decode_packet, ConnectAck::decode, take_properties, Option<T>::read_value
+//@ bounds: every body of 0..=4 arbitrary bytes (flags, reason, property length and ONE property byte: every property id with its value cut off)
+//@ unwindset: utf8_is_valid=6 spec_utf8=6 slice_eq=6 ConnectAck=6 spec_walk_props=6 decode_variable_length_cursor=6 encode_opt_props=3 encoded_size_opt_props=3 clone=3 expect_lp=6 spec_check_connack_props=8
+//@ mem: 12  timeout: 900
+//@ desc: v5 CONNACK body, shortest bodies: never panics; reserved acknowledge flags, unknown reason code, a property identifier whose value is cut off by the end of the section, trailing bytes are errors
+bd5_connack!(bd5_connack_4, 4);
 //@ props: C02
 //@ tier: thorough
 //@ functions: v5 decode::decode_packet, ConnectAck::decode, take_properties, Option<T>::read_value
